@@ -34,3 +34,15 @@ Theorem C04_trigger_sends_request_refuted :
     snd (step (fst (step s OpReaccess)) (OpAnswer AGrant)) = [OCont 1 VOk].
 Proof. exact trigger_sends_request_refuted. Qed.
 Print Assumptions C04_trigger_sends_request_refuted.
+
+(* Integrated model Comp/Core.v (run in lock-step with the real gateway on every check), every sequence of stimuli and
+   scheduler grants: a connection is sent the resource's data only after the service granted that connection's access request. *)
+From RG Require Comp.Conv Comp.Core Proofs.CoreProofs.
+Theorem C04_core_response_needs_grant :
+  forall (val upd : Type) (app : upd -> val -> val) (norm : upd -> val -> option upd) (d : val),
+  (forall u v, norm u v = None -> app u v = v) ->
+  (forall u v u', norm u v = Some u' -> app u' v = app u v) ->
+  forall t ops c,
+  Core.resps val upd c (snd (Core.exec val upd app norm d t ops)) <> [] -> In (Core.MqAccess upd c) ops.
+Proof. exact CoreProofs.core_response_needs_grant. Qed.
+Print Assumptions C04_core_response_needs_grant.
